@@ -383,6 +383,7 @@ def run_row(row, tier, rng, viols, keys, counters):
     base = C.corpus(src, limit=n, rng=rng)
     nums = []
     extra = C.synth_alphabet(src, rng, k=2 if tier == 'quick' else 6) + C.synth_digits_only(src, rng, k=4 if tier == 'quick' else 20)
+    extra = extra + C.synth_field_extremes(src, rng, k=1 if tier == 'quick' else 3, raw=False, cap=200 if tier == 'quick' else 3000)
     if row.get('extra'):
         extra = extra + row['extra'](rng)
     for v in base + C.synth_valid(src, n, rng, base=base, leading_zero_bias=0.5) + extra:
